@@ -54,11 +54,11 @@ static const bool tp_is_bytes[TP_N] = { false, false, false, false, false, true,
 
 /* ------------------------------------------------------------------ events ---------- */
 enum kind { K_AFD_GET, K_AFD_NEW, K_AFD_PUT, K_AFD_CLOSE, K_CTX_HIT, K_CTX_NEW, K_CTX_PUT, K_CTX_FREE, K_SOCK_ID,
-	    K_LIVE, K_PEAK, K_CONN, K_END, K_N };
+	    K_LIVE, K_PEAK, K_CONN, K_END, K_STRAY, K_N };
 static const char *kind_name[K_N] = { "afd_get", "afd_new", "afd_put", "afd_close", "ctx_hit", "ctx_new", "ctx_put",
-				       "ctx_free", "sock_id", "live", "peak", "conn", "end" };
+				       "ctx_free", "sock_id", "live", "peak", "conn", "end", "stray_close" };
 static const char *kind_sub[K_N] = { "afd", "afd", "afd", "afd", "ctx", "ctx", "ctx", "ctx", "id",
-				      "drv", "drv", "drv", "drv" };
+				      "drv", "drv", "drv", "drv", "drv" };
 
 struct ev {
     uint64_t seq;
@@ -99,6 +99,20 @@ static void ev_drv(int kind, long a, long b, long c, long d, int tp)
 {
     uint64_t seq = atomic_fetch_add_explicit(&g_seq, 1, memory_order_relaxed);
     ev_add(kind, a, b, c, d, tp, 0, 1, seq);
+}
+
+/* the descriptor table is process-wide state: a close() of a descriptor that is not open (EBADF) made by the library
+   (its objects are linked with --wrap=close) is a close of a descriptor the library does not own - in a process with
+   threads the number may by then belong to another thread's socket */
+int __real_close(int fd);
+int __wrap_close(int fd)
+{
+    int rc = __real_close(fd);
+    if (rc < 0 && errno == EBADF) {
+	ev_drv(K_STRAY, fd, 0, 0, 0, 0);
+	errno = EBADF;
+    }
+    return rc;
 }
 
 static __thread uint64_t cb_rng = 88172645463325252ULL;
@@ -191,7 +205,7 @@ static void dump_events(int mode)
 	for (size_t j = 0; j < g_buf[i].n; j++)
 	    all[k++] = g_buf[i].v[j];
     qsort(all, total, sizeof(struct ev), ev_cmp);
-    if (mode == 2) {
+    if (mode == 2 || mode == 3) {
 	size_t keep = 0;
 	while (keep < total && all[keep].seq == (uint64_t)keep)
 	    keep++;
@@ -218,7 +232,7 @@ static void dump_events(int mode)
 		e->ov, e->ok, e->kind == K_LIVE || e->kind == K_CONN ? tp_name[e->tp] : "");
     }
     fprintf(f, "{\"x\":%d,\"n\":%zu,\"s\":\"drv\",\"ev\":\"%s\",\"t\":0,\"a\":0,\"b\":0,\"c\":0,\"d\":0,\"ov\":0,\"ok\":1,\"tp\":\"\"}\n",
-	    g_x, total + 1, mode == 1 ? "stall" : mode == 2 ? "crash" : "end");
+	    g_x, total + 1, mode == 1 ? "stall" : mode == 2 ? "crash" : mode == 3 ? "setup" : "end");
     if (fclose(f) != 0) {
 	perror(g_out);
 	exit(4);
@@ -256,6 +270,12 @@ static void die(const char *fmt, ...)
     va_end(ap);
     if (write(g_errfd, msg, (size_t)n) < 0)
 	_exit(5);
+    /* keep what was recorded up to here: the set-up may have failed because of something the events show */
+    static atomic_int once;
+    if (g_out != NULL && atomic_fetch_add(&once, 1) == 0) {
+	atomic_store_explicit(&g_dying, 1, memory_order_relaxed);
+	dump_events(3);
+    }
     _exit(4);
 }
 
@@ -608,6 +628,43 @@ static void establish(struct conn *cs, int n, int tid, int round, struct rng *r,
     }
 }
 
+/* an accept the library has to undo: the connection is taken off the listen queue, then an attribute of the accept map is
+   refused by the kernel (tcp.keepalive_count above 127 passes the library's own range check) and everything made for
+   the new socket is released again - while the other threads go on creating and closing descriptors */
+static void refused_accept(int tid, int round, struct rng *r)
+{
+    static const int tps[] = { TP_TCP, TP_BTCP, TP_TLS, TP_BTLS };
+    int tp = tps[rnd_n(r, 4)];
+    int variant = pick_variant(r);
+    char addr[256];
+    struct xcm_socket *srv = make_server(tp, variant, tid, round, 70, false, addr, sizeof(addr));
+    struct xcm_attr_map *m = base_attrs(tp, variant, false);
+    struct xcm_socket *cli = xcm_connect_a(addr, m);
+    xcm_attr_map_destroy(m);
+    if (cli == NULL)
+	die("xcm_connect_a(%s)", addr);
+    struct xcm_attr_map *am = xcm_attr_map_create();
+    xcm_attr_map_add_int64(am, "tcp.keepalive_count", 1000);
+    for (int i = 0; i < 2000; i++) {
+	struct xcm_socket *acc = xcm_accept_a(srv, am);
+	if (acc != NULL) {
+	    xcm_close(acc);
+	    break;
+	}
+	if (errno != EAGAIN)
+	    break;
+	(void)xcm_finish(cli);
+	xcm_await(srv, XCM_SO_ACCEPTABLE);
+	xcm_await(cli, 0);
+	struct xcm_socket *ws[2] = { srv, cli };
+	wait_any(ws, 2);
+    }
+    xcm_attr_map_destroy(am);
+    xcm_close(cli);
+    xcm_close(srv);
+    progress();
+}
+
 static bool stream_done(const struct stream *st) { return st->sk >= st->total && st->rk >= st->total; }
 
 /* move all messages of all connections of the batch, both directions, interleaved */
@@ -955,6 +1012,9 @@ static void *worker(void *arg)
 	int keep = n / 2;
 	for (int i = keep; i < n; i++)
 	    close_conn(&cs[i], &r);
+	if (!(g_flags & F_COLD))
+	    for (int i = 0; i < 3; i++)
+		refused_accept(tid, round, &r);
 	if (round > 0 && partner) {
 	    if (g_flags & F_HANDOVER) {
 		if (tid & 1)
